@@ -74,6 +74,14 @@ func main() {
 			}
 			return
 		}
+		if os.Getenv("DBG_BCE") != "" {
+			sites, err := unprovenBounds(c)
+			fmt.Println(len(sites), err)
+			for _, s := range sites {
+				fmt.Printf("%s:%d:%d %s %s | %s\n", s.File, s.Line, s.Col, s.Kind, s.Func, s.Expr)
+			}
+			return
+		}
 		if os.Getenv("DBG_CALLEES") != "" {
 			dbgCallees(c, *dump)
 			return
